@@ -1137,3 +1137,154 @@ func g10DeleteRemoves(r *Repo, rep *Report) {
 		rep.pass("G10")
 	}
 }
+
+// g23UnresolvedReported — C09: a call goderive cannot generate a function for is reported with a non-zero exit. In
+// generatePackage a nil error may be returned only on paths that established that no call is left undefined: behind the true
+// edge of `len(U) == 0`, or the false edge of `len(U) > 0` / `len(U) != 0`, where U is the package's list of undefined calls, a
+// slice built from it, or the string joined from that slice. A conjunction with anything else on the reporting branch
+// (`len(undefined) > 0 && !generated`) lets a run end successfully with calls that were never generated.
+func g23UnresolvedReported(r *Repo, rep *Report) {
+	fi := r.lookup("derive.(*program).generatePackage")
+	if fi == nil {
+		rep.fail(Finding{Rule: "G23", Key: "G23|unresolved|missing", Kind: "undecided", Msg: "(*program).generatePackage not found"})
+		return
+	}
+	info := fi.Pkg.TypesInfo
+	// U: objects that stand for the undefined calls
+	undef := map[types.Object]bool{}
+	isUndefExpr := func(e ast.Expr) bool {
+		found := false
+		ast.Inspect(e, func(n ast.Node) bool {
+			switch x := n.(type) {
+			case *ast.SelectorExpr:
+				if x.Sel.Name == "undefined" {
+					found = true
+				}
+			case *ast.Ident:
+				if undef[info.Uses[x]] {
+					found = true
+				}
+			}
+			return true
+		})
+		return found
+	}
+	for changed := true; changed; {
+		changed = false
+		ast.Inspect(fi.Decl.Body, func(n ast.Node) bool {
+			as, ok := n.(*ast.AssignStmt)
+			if !ok || len(as.Lhs) != len(as.Rhs) {
+				return true
+			}
+			for i, l := range as.Lhs {
+				id, ok := l.(*ast.Ident)
+				if !ok {
+					continue
+				}
+				o := objOf(info, id)
+				if o != nil && !undef[o] && isUndefExpr(as.Rhs[i]) {
+					undef[o] = true
+					changed = true
+				}
+			}
+			return true
+		})
+	}
+	lenOfU := func(e ast.Expr) bool {
+		c, ok := ast.Unparen(e).(*ast.CallExpr)
+		return ok && exprStr(c.Fun) == "len" && len(c.Args) == 1 && isUndefExpr(c.Args[0])
+	}
+	isZero := func(e ast.Expr) bool {
+		tv, ok := info.Types[e]
+		return ok && tv.Value != nil && tv.Value.String() == "0"
+	}
+	// resolved: cond with the given truth value establishes that nothing is undefined
+	var resolved func(e ast.Expr, truth bool) bool
+	resolved = func(e ast.Expr, truth bool) bool {
+		switch x := ast.Unparen(e).(type) {
+		case *ast.UnaryExpr:
+			if x.Op == token.NOT {
+				return resolved(x.X, !truth)
+			}
+		case *ast.BinaryExpr:
+			switch x.Op {
+			case token.LAND:
+				if truth {
+					return resolved(x.X, true) || resolved(x.Y, true)
+				}
+				return false
+			case token.LOR:
+				if !truth {
+					return resolved(x.X, false) || resolved(x.Y, false)
+				}
+				return false
+			case token.EQL:
+				return truth && ((lenOfU(x.X) && isZero(x.Y)) || (lenOfU(x.Y) && isZero(x.X)))
+			case token.NEQ, token.GTR:
+				return !truth && lenOfU(x.X) && isZero(x.Y)
+			}
+		}
+		return false
+	}
+	g := newGraph(fi.Decl.Body, func(*ast.CallExpr) bool { return true })
+	type state struct {
+		b  *cfg.Block
+		ok bool
+	}
+	seen := map[state]bool{}
+	nilReturns, bad := 0, false
+	var dfs func(s state)
+	dfs = func(s state) {
+		if seen[s] {
+			return
+		}
+		seen[s] = true
+		for _, n := range s.b.Nodes {
+			ret, isRet := n.(*ast.ReturnStmt)
+			if !isRet || len(ret.Results) != 1 {
+				continue
+			}
+			if id, isID := ast.Unparen(ret.Results[0]).(*ast.Ident); isID && id.Name == "nil" {
+				nilReturns++
+				if !s.ok && !bad {
+					bad = true
+					rep.fail(Finding{Rule: "G23", Key: "G23|unresolved|success-with-undefined-calls", Where: []string{r.pos(ret.Pos())},
+						Msg: "generatePackage can return nil (exit 0) on a path that has not established that no derive call is left undefined (return at " + r.pos(ret.Pos()) + "): a call whose argument types never become known — next to any call that can be generated — is logged as `could not yet generate` and then forgotten; the package is left without the function and goderive reports success"})
+				}
+			}
+		}
+		if len(s.b.Succs) == 2 {
+			var cond ast.Expr
+			if ifs, isIf := s.b.Succs[0].Stmt.(*ast.IfStmt); isIf && s.b.Succs[0].Kind == cfg.KindIfThen {
+				cond = ifs.Cond
+			}
+			for i, succ := range s.b.Succs {
+				ok := s.ok
+				if cond != nil && resolved(cond, i == 0) {
+					ok = true
+				}
+				dfs(state{succ, ok})
+			}
+			return
+		}
+		for _, succ := range s.b.Succs {
+			// entering the next pass forgets what the previous one established
+			ok := s.ok
+			if succ.Kind == cfg.KindForLoop || succ.Kind == cfg.KindForBody {
+				ok = false
+			}
+			dfs(state{succ, ok})
+		}
+	}
+	if e := g.entry(); e != nil {
+		dfs(state{e, false})
+	}
+	rep.analysed("generatePackage_nil_returns", nilReturns)
+	if nilReturns == 0 {
+		rep.fail(Finding{Rule: "G23", Key: "G23|unresolved|floor", Kind: "undecided", Where: []string{r.pos(fi.Decl.Pos())}, Msg: "no `return nil` found in generatePackage"})
+		return
+	}
+	if !bad {
+		rep.pass("G23")
+	}
+}
